@@ -1758,8 +1758,10 @@ find_reg(const RegisterTable *t,
 {
     struct maybe_register rv = { .valid = true, .handle = 0 };
 
+    /* The first entry that is not wholly below addr: either it contains addr
+     * or, if addr falls into a gap or a hole, it is the next one above. */
     for (RegisterHandle i = first; i <= last; i++) {
-        if (reg_range_touches(t->entry + i, addr, 1u) == 0) {
+        if (reg_range_touches(t->entry + i, addr, 1u) >= 0) {
             rv.handle = i;
             return rv;
         }
@@ -1851,8 +1853,7 @@ register_foreach_in(RegisterTable *t,
 
     if (startarea.valid) {
         const RegisterHandle first = t->area[startarea.handle].entry.first;
-        const RegisterHandle last = t->area[startarea.handle].entry.last;
-        startreg = find_reg(t, first, last, addr);
+        startreg = find_reg(t, first, t->entries - 1u, addr);
     } else {
         startreg = find_reg(t, 0, t->entries - 1u, addr);
     }
